@@ -750,7 +750,9 @@ func c05TplToks(tpls [][]c05Field) string {
 }
 
 // c05GenHistory: a random history of nops operations. mode 0: within the hypotheses;
-// mode 1: with breaches of the exporter contract; mode 2: ill-typed templates as well.
+// mode 1: with breaches of the exporter contract; mode 2: ill-typed templates as well;
+// mode 3: within the hypotheses, half of the records of the IPv4 flows in another layout of the
+// same fields (the theorems compare the templates of a flow by name, not by position).
 func c05GenHistory(env *Env, cfgName string, nops, nkeys, mode int) string {
 	rng := env.Rng
 	cfg := c05GetConfig(cfgName)
@@ -774,7 +776,7 @@ func c05GenHistory(env *Env, cfgName string, nops, nkeys, mode int) string {
 			v = append(v, c05Field{all[rng.Intn(len(all))], "u64"})
 		case 4: // both address families
 			v = append(v, c05Field{"sourceIPv6Address", "ip6"}, c05Field{"destinationIPv6Address", "ip6"})
-		case 5: // field order shuffled
+		case 5: // field order shuffled (not ill-typed: equivalent to the base template)
 			for i := len(v) - 1; i > 0; i-- {
 				j := rng.Intn(i + 1)
 				v[i], v[j] = v[j], v[i]
